@@ -662,6 +662,13 @@ Proof.
   unfold render. destruct f, (p_ind p); simpl; split; intros H; try reflexivity; try discriminate.
 Qed.
 
+Lemma render_none_iff_gregorian f p :
+  render f p = None <-> (f = FGregorian /\ (p_ind p = IS \/ p_ind p = IQ \/ p_ind p = IW)).
+Proof.
+  rewrite render_none_iff. destruct f, (p_ind p); simpl; split; intros H; try discriminate; try reflexivity;
+    try (split; [reflexivity | tauto]); destruct H as [H1 H2]; try discriminate; destruct H2 as [H2 | [H2 | H2]]; discriminate.
+Qed.
+
 Lemma canonical_parse p : period_valid p = true -> 0 <= p_year p <= 9999 -> parse_in (canonical p) = Some p.
 Proof.
   intros V Y. unfold canonical. apply (parse_in_suffix_ok p _ V Y), oin_eqb_eq.
